@@ -495,21 +495,7 @@ def alias_all (p : Params) (ops : List View) : Built :=
 
 /-! ### matricized tensors -/
 
-/-- `tenmat(data, rdims, cdims, tshape, copy)` (tenmat.py:97-177).  operands: data (, rdims,
-cdims).  1-d data: `np.reshape(data.copy(), (1, n))` first.  Then `to_memory_order(data, "F",
-copy)` where `copy` is forced when the data is not F-contiguous (`data.copy()` is C-ordered,
-`asfortranarray` follows).  rindices / cindices are copies of fresh `astype(int)` arrays. -/
-def tenmat_init (p : Params) (ops : List View) : Built :=
-  let b := ops.length
-  let d := ops.getD 0 default
-  if d.shape.length == 1 then
-    { prog := [.copy 0, .reshapeF b p.shape, if p.copy then .copy (b + 1) else .asF (b + 1), .asF (b + 2),
-               .fresh [] (List.range b), .fresh [] (List.range b)],
-      res := [("data", b + 3), ("rindices", b + 4), ("cindices", b + 5)] }
-  else
-    let copy := p.copy || !d.isF
-    { prog := [if copy then .copy 0 else .alias 0, .asF b, .fresh [] (List.range b), .fresh [] (List.range b)],
-      res := [("data", b + 1), ("rindices", b + 2), ("cindices", b + 3)] }
+/- the constructors of `tenmat` and `sptenmat` are in part 4 (`Heap/Table2.lean`: `tenmat_init2`, `sptenmat_init2`) -/
 
 /-- `tenmat.to_tensor(copy)` (tenmat.py:270-283).  operands: data rindices cindices.
 `p.dims` = tshape[order], `p.perm` = argsort(order), `p.shape` = tshape.  More than one
@@ -544,17 +530,6 @@ def tenmat_setitem (_ : Params) (ops : List View) : Built :=
   let b := ops.length
   { prog := [.write 0 ((List.range b).drop 3), .alias 0, .alias 1, .alias 2],
     res := [("data", b), ("rindices", b + 1), ("cindices", b + 2)] }
-
-/-- `sptenmat(subs, vals, rdims, cdims, tshape, copy)` (sptenmat.py:93-166).  operands: subs,
-vals (, rdims, cdims).  copy: unique rows, accumulated values – all new.  no copy: subs and
-vals kept (when there are values); rdims / cdims are always fresh `astype(int)` arrays. -/
-def sptenmat_init (p : Params) (ops : List View) : Built :=
-  let b := ops.length
-  let empty := (ops.getD 1 default).size == 0
-  let keep := !p.copy && !empty
-  { prog := [if keep then .alias 0 else .fresh [] [0, 1], if keep then .alias 1 else .fresh [] [0, 1],
-             .fresh [] (List.range b), .fresh [] (List.range b)],
-    res := [("subs", b), ("vals", b + 1), ("rdims", b + 2), ("cdims", b + 3)] }
 
 /-- `sptenmat.double()` (sptenmat.py:361), repaired with `copy=True` (see `sptensor_spmatrix`). -/
 def sptenmat_double (p : Params) (ops : List View) : Built := sptensor_spmatrix p ops
